@@ -110,3 +110,12 @@ MUTANTS += [
  {"id": "descending-cursor-never-moves", "kind": "break", "edits": [{"patch": "/verif/benign/h3-summary-2/patch.diff"}, ("src/summary.rs", "        end -= 1;\n", "")], "expect": ["TERM@summary::complete_records_len"]},
  {"id": "descending-cursor-result-one-past", "kind": "break", "edits": [{"patch": "/verif/benign/h3-summary-2/patch.diff"}, ("src/summary.rs", "            return Some(end);", "            return Some(end + 1);")], "expect": ["PANIC@<summary::SummaryStream as std::io::Write>::write"]},
 ]
+MUTANTS += [
+ # readdir.expect(..) is safe because of a struct invariant (dbtype == Files => readdir is Some) and the test of dbtype before it
+ {"id": "pkgdb-open-files-without-handle", "kind": "break", "edits": [("src/pkgdb.rs", "            db.readdir = Some(fs::read_dir(&db.path)?);", "            let _ = fs::read_dir(&db.path)?;")], "expect": ["PANIC@<pkgdb::PkgDB as std::iter::Iterator>::next"]},
+ {"id": "pkgdb-handle-reset-by-a-method", "kind": "break", "edits": [("src/pkgdb.rs", "    /**\n     * Ensure package directory is valid.", "    /**\n     * Forget the directory handle.\n     */\n    pub fn close(&mut self) {\n        self.readdir = None;\n    }\n\n    /**\n     * Ensure package directory is valid.")], "expect": ["PANIC@<pkgdb::PkgDB as std::iter::Iterator>::next"]},
+ {"id": "pkgdb-handle-taken-by-a-method", "kind": "break", "edits": [("src/pkgdb.rs", "    /**\n     * Ensure package directory is valid.", "    /**\n     * Hand the directory handle to the caller.\n     */\n    pub fn into_readdir(&mut self) -> Option<fs::ReadDir> {\n        self.readdir.take()\n    }\n\n    /**\n     * Ensure package directory is valid.")], "expect": ["PANIC@<pkgdb::PkgDB as std::iter::Iterator>::next"]},
+ {"id": "pkgdb-expect-in-database-arm", "kind": "break", "edits": [("src/pkgdb.rs", "            DBType::Database => None,", "            DBType::Database => self.readdir.as_mut().expect(\"Bad pkgdb read\").next().map(|_| Ok(package)),")], "expect": ["PANIC@<pkgdb::PkgDB as std::iter::Iterator>::next"]},
+ {"id": "pkgdb-private-constructor-benign", "kind": "benign", "edits": [{"patch": "/verif/benign/h3-pkgdb-1/patch.diff"}]},
+ {"id": "pkgdb-if-let-database-benign", "kind": "benign", "edits": [{"patch": "/verif/benign/h3-pkgdb-2/patch.diff"}]},
+]
